@@ -25,6 +25,7 @@ impl Monitor for C04 {
             gen("random-long", tier.pick(3_000, 200_000, 10)),
             gen("answer-fill", tier.pick(4_000, 200_000, 4)),
             gen("single-channel", 9 * 3 * 16 * tier.pick(2, 20, 0)),
+            gen("join-marathon", tier.pick(120, 3_000, 0)),
         ]
     }
     fn rule(&self) -> String {
@@ -46,6 +47,11 @@ impl Monitor for C04 {
 
     fn run_case(&self, g: &str, idx: u64, rng: &mut Prng, col: &mut Collector) {
         match g {
+            "join-marathon" => {
+                let reg = regions::ALL[(idx % 9) as usize];
+                let front = FRONTS[((idx / 9) % 3) as usize];
+                join_marathon(reg, front, rng, col);
+            }
             "mac-field-sweep" => {
                 let reg = regions::ALL[(idx % 9) as usize];
                 let front = FRONTS[((idx / 9) % 3) as usize];
@@ -651,4 +657,44 @@ fn mac_sweep(reg: Reg, front: Front, val: u8, rng: &mut Prng, col: &mut Collecto
     }
     col.event("still_transmits");
     col.eval(&format!("{}|{}|sweep|cid={:02x}|pos={}|val={}", front.name(), reg.name(), cmds[0], pos, val >> 4));
+}
+
+
+/// Join attempt after join attempt that nobody answers (60-140 of them; fixed plans with a join
+/// bias of 1-32 retries): every call returns, and in the end a JoinAccept is still taken and the
+/// device transmits.
+fn join_marathon(reg: Reg, front: Front, rng: &mut Prng, col: &mut Collector) {
+    let creds = default_creds(rng);
+    let bias = if reg.fixed() && rng.chance(3, 4) { Some((rng.range(1, 9) as u8, *rng.pick(&[1usize, 2, 3, 5, 8, 16, 32]))) } else { None };
+    let opts = DevOpts { rng_seed: if rng.bool() { Some(rng.next_u64()) } else { None }, rng_start: rng.next_u32(), bias };
+    let mut dev: Dev = Dev::new(front, reg, creds.clone(), &opts);
+    let n = rng.range(60, 141);
+    let trace = vec![format!("join-marathon bias={:?} attempts={}", bias, n)];
+    for i in 0..n {
+        let r = dev.transact(Action::Join, &Script::silent());
+        col.event("calls_returned");
+        if let Resp::Panic(m, l) = &r {
+            report(reg, front, false, "join-marathon", &Sym::JoinSilent, m, l, &trace, i as usize, col);
+            return;
+        }
+    }
+    let ja = JoinAcceptDesc { join_nonce: 7, net_id: 1, dev_addr: rng.next_u32(), dl_settings: 0, rx_delay: 1, cf_list: None };
+    let w = encode_join_accept(&creds.app_key, &ja);
+    let r = dev.transact(Action::Join, &Script::rx1(w));
+    if let Resp::Panic(m, l) = &r {
+        report(reg, front, false, "join-marathon", &Sym::JoinBenign, m, l, &trace, n as usize, col);
+        return;
+    }
+    let ev0 = dev.ev_len();
+    let r2 = dev.transact(Action::Send { data: &[1], port: 1, confirmed: false }, &Script::silent());
+    if let Resp::Panic(m, l) = &r2 {
+        report(reg, front, false, "join-marathon", &Sym::SendU, m, l, &trace, n as usize + 1, col);
+        return;
+    }
+    if !matches!(r, Resp::JoinSuccess) || dev.tx_since(ev0).is_empty() {
+        col.violation(&format!("C04|cannot-transmit-afterwards|{}|after-join-marathon|{}", if front == Front::Nb { "nb" } else { "async" }, r.kind()), "after a long run of unanswered join attempts the device no longer joins or transmits", json!({"region": reg.name(), "front": front.name(), "bias": bias, "attempts": n, "join_response": format!("{:?}", r), "send_response": format!("{:?}", r2)}));
+    } else {
+        col.event("still_transmits");
+    }
+    col.eval(&format!("{}|{}|join-marathon|bias={:?}", front.name(), reg.name(), bias.map(|b| b.1)));
 }
